@@ -57,6 +57,34 @@ def _pow2_exp(t):
   return None
 
 
+def real_to_int(e):
+  """Int-sorted term equal to the Real-sorted term e when e is structurally integer valued."""
+  if e.sort() == z3.IntSort():
+    return e
+  if z3.is_rational_value(e):
+    return z3.IntVal(e.numerator_as_long()) if e.denominator_as_long() == 1 else None
+  if not z3.is_app(e):
+    return None
+  k = e.decl().kind()
+  if k == z3.Z3_OP_TO_REAL:
+    return e.arg(0)
+  if k == z3.Z3_OP_ITE:
+    a, b = real_to_int(e.arg(1)), real_to_int(e.arg(2))
+    return None if a is None or b is None else z3.If(e.arg(0), a, b)
+  if k in (z3.Z3_OP_ADD, z3.Z3_OP_MUL, z3.Z3_OP_SUB):
+    cs = [real_to_int(c) for c in e.children()]
+    if any(c is None for c in cs):
+      return None
+    r = cs[0]
+    for c in cs[1:]:
+      r = r + c if k == z3.Z3_OP_ADD else (r * c if k == z3.Z3_OP_MUL else r - c)
+    return r
+  if k == z3.Z3_OP_UMINUS:
+    a = real_to_int(e.arg(0))
+    return None if a is None else -a
+  return None
+
+
 def _factors(t, out):
   if z3.is_app(t) and t.decl().kind() == z3.Z3_OP_MUL:
     for c in t.children():
@@ -87,10 +115,18 @@ def mul_norm(a, b):
   fs = []
   _factors(a, fs)
   _factors(b, fs)
-  exps = [(_pow2_exp(f), f) for f in fs]
-  pw = [e for e, f in exps if e is not None and not (z3.is_int_value(f) or z3.is_rational_value(f))]
-  if len(pw) < 2 and not (len(pw) == 1 and any(e is not None and (z3.is_int_value(f) or z3.is_rational_value(f)) for e, f in exps)):
-    return a * b if a.sort() == b.sort() else (z3.ToReal(a) if a.sort() == z3.IntSort() else a) * (z3.ToReal(b) if b.sort() == z3.IntSort() else b)
+  exps = []
+  for f in fs:
+    e = _pow2_exp(f)
+    if e is not None and (z3.is_int_value(f) or z3.is_rational_value(f)) and z3.is_int_value(e) and e.as_long() == 0:
+      e = None      # the numeral 1 is not worth normalising
+    exps.append((e, f))
+  sym = [e for e, f in exps if e is not None and not (z3.is_int_value(f) or z3.is_rational_value(f))]
+  num = [e for e, f in exps if e is not None and (z3.is_int_value(f) or z3.is_rational_value(f))]
+  if not sym or len(sym) + len(num) < 2:
+    if a.sort() == b.sort():
+      return a * b
+    return (z3.ToReal(a) if a.sort() == z3.IntSort() else a) * (z3.ToReal(b) if b.sort() == z3.IntSort() else b)
   tot = None
   rest = []
   for e, f in exps:
@@ -1020,6 +1056,7 @@ class Interp(object):
 
   def num(self, v):
     """-> (z3 arith expr) for a numeric value."""
+    v = self.deref(v)
     if isinstance(v, SNum):
       return v.e
     if isinstance(v, SBool):
@@ -1045,7 +1082,14 @@ class Interp(object):
       return z3.BoolVal(bool(v))
     raise Unsupported("not boolean: %r" % (v,))
 
+  def deref(self, v):
+    """tf.Variable cell -> its current value."""
+    while isinstance(v, Obj) and v.attrs.get("__var__") is True:
+      v = v.attrs["value"]
+    return v
+
   def binop(self, op, a, b):
+    a, b = self.deref(a), self.deref(b)
     if isinstance(a, Obj) or isinstance(b, Obj):
       return self.obj_binop(op, a, b)
     if isinstance(a, Term) or isinstance(b, Term):
@@ -1235,6 +1279,13 @@ class Interp(object):
         if self.entails(eb >= 0):
           return SNum(IPOW2(eb), "int" if (isinstance(a, int) and pt == "int") else ("tensor" if pt == "tensor" else "float"))
         return SNum(POW2(eb), "float" if pt != "tensor" else "tensor")
+      ei = real_to_int(z3.simplify(eb))
+      if ei is not None:
+        g = None
+        if isinstance(b, SNum) and b.grad is not None:
+          # d/dx 2^e(x) = ln2 * 2^e * e'(x); e is integer-valued and piecewise constant here
+          g = b.grad * POW2(ei) * z3.RealVal("6931471805599453/10000000000000000")
+        return SNum(POW2(ei), "float" if pt != "tensor" else "tensor", g)
       raise Unsupported("2 ** real-valued symbolic exponent")
     if not is_sym(b) and isinstance(b, int) and 0 <= b <= 4:
       r = 1
@@ -1246,6 +1297,8 @@ class Interp(object):
     raise Unsupported("symbolic power %r ** %r" % (a, b))
 
   def compare(self, op, a, b):
+    if not isinstance(op, (ast.Is, ast.IsNot)):
+      a, b = self.deref(a), self.deref(b)
     if isinstance(op, ast.Is):
       return self.identical(a, b)
     if isinstance(op, ast.IsNot):
